@@ -624,31 +624,37 @@ func (d *Decimal) Modf(integ, frac *Decimal) {
 		return
 	}
 
+	// Read everything needed from d before writing to integ or frac, either of
+	// which may alias d.
 	neg := d.Negative
+	form := d.Form
+	dexp := d.Exponent
 
 	// No fractional part.
-	if d.Exponent > 0 {
+	if dexp > 0 {
+		if integ != nil {
+			integ.Set(d)
+		}
 		if frac != nil {
+			frac.Form = form
 			frac.Negative = neg
 			frac.Exponent = 0
 			frac.Coeff.SetInt64(0)
 		}
-		if integ != nil {
-			integ.Set(d)
-		}
 		return
 	}
 	nd := d.NumDigits()
-	exp := -int64(d.Exponent)
+	exp := -int64(dexp)
 	// d < 0 because exponent is larger than number of digits.
 	if exp > nd {
+		if frac != nil {
+			frac.Set(d)
+		}
 		if integ != nil {
+			integ.Form = form
 			integ.Negative = neg
 			integ.Exponent = 0
 			integ.Coeff.SetInt64(0)
-		}
-		if frac != nil {
-			frac.Set(d)
 		}
 		return
 	}
@@ -659,6 +665,7 @@ func (d *Decimal) Modf(integ, frac *Decimal) {
 	var icoeff *BigInt
 	if integ != nil {
 		icoeff = &integ.Coeff
+		integ.Form = form
 		integ.Exponent = 0
 		integ.Negative = neg
 	} else {
@@ -669,7 +676,8 @@ func (d *Decimal) Modf(integ, frac *Decimal) {
 
 	if frac != nil {
 		icoeff.QuoRem(&d.Coeff, e, &frac.Coeff)
-		frac.Exponent = d.Exponent
+		frac.Form = form
+		frac.Exponent = dexp
 		frac.Negative = neg
 	} else {
 		// This is the frac == nil, which means integ must not be nil since they both
